@@ -110,6 +110,13 @@ class Ctx:
         self._built = set()
         kf = os.path.join(ROOT, "known_findings.json")
         self.known_findings = json.load(open(kf)) if os.path.exists(kf) else []
+        # long per-property lists live in known_findings.d/<ID>.json (same entry format, committed, read-only)
+        kd = os.path.join(ROOT, "known_findings.d")
+        if os.path.isdir(kd):
+            for fn in sorted(os.listdir(kd)):
+                if fn.endswith(".json"):
+                    self.known_findings += json.load(open(os.path.join(kd, fn)))
+        self._known_index = {(k.get("property"), k.get("match")): k for k in self.known_findings if k.get("kind") == "known"}
 
     @property
     def quick(self):
@@ -221,10 +228,7 @@ class Ctx:
     # ---------------------------------------------------------------- findings
     def match_known(self, key):
         """key: a string identifying the specific failing input / call site / mechanism."""
-        for k in self.known_findings:
-            if k.get("kind") == "known" and k.get("property") == self.pid and k.get("match") == key:
-                return k
-        return None
+        return self._known_index.get((self.pid, key))
 
     def report(self, key, what, replay):
         """Report a disagreement. Known finding -> KNOWN-FINDING line (once per key); else violation."""
